@@ -124,9 +124,11 @@ class Number(Element):
             value=values.num_to_str(self.value, self._definition.format),
             label=self._definition.label,
             format=self._definition.format,
-            min=self._definition.min,
-            max=self._definition.max,
-            step=self._definition.step,
+            # min, max and step are required by the protocol;
+            # min == max means that the range is not limited
+            min=self._definition.min if self._definition.min is not None else 0,
+            max=self._definition.max if self._definition.max is not None else 0,
+            step=self._definition.step if self._definition.step is not None else 0,
         )
 
     def to_set_message(self):
